@@ -58,6 +58,7 @@ def envOfJson (j : Json) : Except String (String → Option Int) := do
 def evalErrJson : Expr.EvalErr → Json
   | .divZero => Json.str "division by zero"
   | .negShift => Json.str "negative shift"
+  | .outOfRange => Json.str "out of range"
   | .unknown s => Json.str ("unknown name " ++ s)
 
 partial def argOfJson (j : Json) : Except String Api.Arg := do
